@@ -332,7 +332,7 @@ type vUP4Stack struct {
 
 // vNewUP4Stack: real PFCP handlers on the real UP4 plug-in on the in-harness target.
 func vNewUP4Stack(cells int64) *vUP4Stack {
-	cfg := vUP4Cfg{slice: 15, defaultTC: 3, qfiToTC: map[uint8]uint8{5: 1}}
+	cfg := vUP4Cfg{slice: 15, defaultTC: 3, qfiToTC: map[uint8]uint8{5: 0}} // QFI 5 explicitly mapped to class 0 (the map's zero value), QFI 9 unmapped
 	if vC04Rich != 0 {
 		cfg = vUP4Cfg{slice: uint8(vChoose("slice_id", 2) * 15), defaultTC: uint8(vChoose("default_tc", 2) * 3)}
 		cfg.qfiToTC = map[uint8]uint8{5: uint8(vChoose("tc_of_qfi5", 4))}
